@@ -10,6 +10,8 @@ pub mod c05;
 pub mod c07;
 pub mod c08;
 pub mod c12;
+pub mod c15;
+pub mod c16;
 pub mod c17;
 pub mod c20;
 
@@ -75,7 +77,7 @@ pub struct PropDef {
 }
 
 pub fn all() -> Vec<PropDef> {
-    vec![c02::def(), c03::def(), c04::def(), c05::def(), c07::def(), c08::def(), c12::def(), c17::def(), c20::def()]
+    vec![c02::def(), c03::def(), c04::def(), c05::def(), c07::def(), c08::def(), c12::def(), c15::def(), c16::def(), c17::def(), c20::def()]
 }
 
 pub fn get(id: &str) -> Option<PropDef> {
